@@ -152,6 +152,11 @@ class MEngine:
                         s.set("random_seed", _n)
                     s.add(goal)
                     r = guarded_check(s, 2500)
+                    if r == z3.unknown:
+                        # a busy machine makes 2.5 s tight; the abstraction below is lossy, so ask once more, longer
+                        s.set("timeout", 12000)
+                        r = guarded_check(s, 12000)
+                        s.set("timeout", it.ctx.branch_timeout_ms)
                     if r == z3.unsat:
                         done = True
                     elif r == z3.sat:
